@@ -92,6 +92,10 @@ def build(prop, tier, seed, L, main, can, obls, viol, und, reported, known_hits,
         if len(samples) >= 12:
             break
     ndis = sum(1 for o in obls if o["status"] == "discharged")
+    # obligations that match an OPEN entry of known_findings.json are known to fail on this tree (a KNOWN-FINDING line is
+    # printed for them): they are listed on their own and are not part of the claim the counts below describe
+    kf_group = [o for o in viol if o.get("known_finding")]
+    n_known = len(kf_group)
     trusted = list(TRUSTED_COMMON) + list(getattr(L, "TRUSTED", []))
     ev = {
         "property_id": prop,
@@ -102,10 +106,11 @@ def build(prop, tier, seed, L, main, can, obls, viol, und, reported, known_hits,
         "violations": len(reported),
         "assumptions": trusted + assumed,
         "coverage": {
-            "obligations": len(obls),
+            "obligations": len(obls) - n_known,
             "discharged": ndis,
             "undecided": len(und),
-            "violated": len(viol),
+            "violated": len(viol) - n_known,
+            "known_finding_obligations": [{"obligation": o["name"], "finding": o["known_finding"]} for o in kf_group],
             "checker_cmd": "./vf check %s --tier %s" % (prop, tier),
             "trusted_base": trusted,
             "back_ends": backends,
